@@ -140,6 +140,21 @@ def mutate(h, kind, n):
     if kind == "prop":
         h.definition = "c20 mutated %d" % n
         return
+    if n % 5 >= 3:
+        # a change THROUGH a link of the entity (what the copy refers to is the copy's own business as well)
+        tgt = None
+        try:
+            if kind in ("tag", "mtag") and n % 2 and len(h.references):
+                tgt = h.references[0]
+            elif kind == "mtag":
+                tgt = h.positions
+            elif kind != "section" and getattr(h, "metadata", None) is not None:
+                tgt = h.metadata
+        except Exception:  # noqa
+            tgt = None
+        if tgt is not None:
+            tgt.definition = "c20 mutated through a link %d" % n
+            return
     which = n % 3
     if which == 0 or kind in ("frame",):
         h.definition = "c20 mutated %d" % n
@@ -171,6 +186,18 @@ def run_case(case, ctx):
     try:
         for op in ops.rich_prefix() + case.get("build", []):
             it.step(op)
+        pre = case.get("precopy")
+        if pre:
+            # an id-keeping copy next to its original first: the tree to be copied then holds two entities of one
+            # id (legal, it is what the default copy produces) - a fresh-id copy must still give each its own id
+            e0 = it.pick(pre["kind"], pre["t"])
+            if e0 is not None:
+                try:
+                    do_copy(it, it, e0, e0.parent, {"keep": True, "name": e0.name + "-dup", "children": True})
+                    flags.add("source-holds-an-id-keeping-duplicate:" + pre["kind"])
+                    it.positional_ok = False
+                except Exception as exc:  # noqa
+                    ctx.count("precopy-raised:" + type(exc).__name__)
         spec = case["copy"]
         kind = spec["kind"]
         src = it.pick(kind, spec["t"])
@@ -290,8 +317,15 @@ def run_case(case, ctx):
             ctx.violation("C20/content-differs/%s%s" % (key_cls, re.sub(r"\[\d+\]", "", d[0])), case,
                           {"path": d[0], "source": walk.brief(d[1], 150), "copy": walk.brief(d[2], 150)})
         # id policy
-        multi = {k: sorted(v) for k, v in idmap.items() if len(v) > 1}
-        if multi:
+        # the source may itself hold several entities of one id (an id-keeping copy next to its original): each
+        # of them gets an id of its own, so one old id may map to as many new ids as entities carried it
+        src_mult = {}
+        for n_ in walk.entities(ws_exp):
+            src_mult[n_["id"]] = src_mult.get(n_["id"], 0) + 1
+        multi = {k: sorted(v) for k, v in idmap.items() if len(v) > max(1, src_mult.get(k, 1))}
+        if multi and not any(f.startswith("source-holds-an-id-keeping-duplicate") for f in flags):
+            # (with an id-keeping duplicate in the source, private copies of link targets share ids as well: which
+            # new id a reference maps to then depends on whose private copy it is - only uniqueness is required)
             ctx.violation("C20/id-map-not-a-function/%s" % key_cls, case, {"ids": list(multi.items())[:3]})
         flat = {k: next(iter(v)) for k, v in idmap.items() if len(v) == 1}
         if len(set(flat.values())) != len(flat):
@@ -340,20 +374,20 @@ def run_case(case, ctx):
                           case, {"returned": [rname, rid], "copy": [exp_name, ch.id]})
         # ---------------- independence
         for j, side in enumerate(case.get("mutations", [])):
-            Ws0 = walk.walk_obj(it.handle(src), timestamps=False)
-            Wc0 = walk.walk_obj(dest_container(dest_it, dparent, kind)[exp_name], timestamps=False)
+            Ws0 = walk.walk_obj(it.handle(src), timestamps=False, seen=True)
+            Wc0 = walk.walk_obj(dest_container(dest_it, dparent, kind)[exp_name], timestamps=False, seen=True)
             try:
                 if side == "copy":
-                    mutate(dest_container(dest_it, dparent, kind)[exp_name], kind, j)
+                    mutate(dest_container(dest_it, dparent, kind)[exp_name], kind, j + spec.get("d", 0) + spec.get("t", 0))
                 elif side == "returned":
-                    mutate(ret, kind, j)
+                    mutate(ret, kind, j + spec.get("d", 0) + spec.get("t", 0))
                 else:
-                    mutate(it.handle(src), kind, j)
+                    mutate(it.handle(src), kind, j + spec.get("d", 0) + spec.get("t", 0))
             except Exception as exc:  # noqa
                 ctx.count("mutation-raised:" + type(exc).__name__)
                 continue
-            Ws1 = walk.walk_obj(it.handle(src), timestamps=False)
-            Wc1 = walk.walk_obj(dest_container(dest_it, dparent, kind)[exp_name], timestamps=False)
+            Ws1 = walk.walk_obj(it.handle(src), timestamps=False, seen=True)
+            Wc1 = walk.walk_obj(dest_container(dest_it, dparent, kind)[exp_name], timestamps=False, seen=True)
             flags.add("mutate:" + side)
             if side == "source":
                 dd = walk.diff(Wc0, Wc1)
@@ -402,7 +436,9 @@ def case_strategy():
     return st.fixed_dictionaries({
         "build": ops.program(BUILD, min_size=0, max_size=12, name_pool=["sig", "sub", "p1"]),
         "copy": copy,
-        "mutations": st.lists(st.sampled_from(["copy", "source", "returned"]), min_size=1, max_size=5)})
+        "mutations": st.lists(st.sampled_from(["copy", "source", "returned"]), min_size=1, max_size=5),
+        "precopy": st.one_of(st.none(), st.none(), st.fixed_dictionaries({
+            "kind": st.sampled_from(["array", "tag", "frame", "section", "prop", "mtag"]), "t": ops.IDX}))})
 
 
 def shards(tier, seed):
